@@ -9,6 +9,11 @@ def key_task(key: str, other: str = "") -> str:
     return f"{key}:{other}"
 
 
+def sp_h_key(key: str, other: str = "") -> str:
+    """a second task with the same parameters as key_task"""
+    return f"{other}:{key}"
+
+
 def noop() -> None:
     return None
 
